@@ -64,3 +64,30 @@ Theorem C14_store_key_is_the_identifier :
   add_insert = "<info>.Identifier := <info>"%string /\
   beginblock_insert = "<info>.Identifier := <info>"%string.
 Proof. vm_compute. repeat split; reflexivity. Qed.
+
+(** MODULE RE-INITIALISATION.  Everything x/epochs InitGenesis does to the keeper is AddEpochInfo (reads aside): it has
+    no store write of its own — the premise of [init_genesis true] (Model.v), whose every write is an [add_epoch] … *)
+Definition init_call_allowed (c : string) : bool :=
+  existsb (String.eqb c) ["AddEpochInfo"; "EpochExists"; "GetEpochInfo"; "AllEpochInfos"; "IterateEpochInfo"; "Epochs.Get"; "Epochs.Has"]%string.
+
+Theorem C14_initgenesis_writes_only_through_addepochinfo :
+  forallb init_call_allowed initgenesis_keeper_calls = true /\
+  existsb (String.eqb "AddEpochInfo"%string) initgenesis_keeper_calls = true.
+Proof. vm_compute. split; reflexivity. Qed.
+
+(** … AddEpochInfo refuses an identifier that is stored before it writes anything ([add_epoch]'s [has_id] test) … *)
+Theorem C14_addepochinfo_refuses_stored_identifier_before_writing : add_exists_guard_before_insert = true.
+Proof. vm_compute. reflexivity. Qed.
+
+(** … and AppModule.InitGenesis (the entry InitChain and RunMigrations use) discards InitGenesis's error
+    ([Init true]: the caller always sees success, what was written before the error stays). *)
+Theorem C14_appmodule_initgenesis_discards_the_error : appmodule_initgenesis_error = "discarded"%string.
+Proof. vm_compute. reflexivity. Qed.
+
+(** hence, on this tree, a module re-initialisation at any point of a history leaves every stored clock untouched *)
+Theorem C14_reinitialisation_keeps_running_epochs_on_this_tree :
+  forallb init_call_allowed initgenesis_keeper_calls = true -> add_exists_guard_before_insert = true ->
+  forall (i : nat) (s : state) (ct ch : BinNums.Z) (gs : list add_args) (e : einfo),
+    lookup i s = Some e -> lookup i (fst (init_genesis true s ct ch gs)) = Some e.
+Proof. intros _ _. exact lookup_init. Qed.
+Print Assumptions C14_reinitialisation_keeps_running_epochs_on_this_tree.
